@@ -3,7 +3,7 @@ from pyvc.spec import contract, specfn
 
 CM = 'fast_ticc.cluster_maintenance.'
 
-contract(CM + 'update_cluster_member_data_statistics', props=['C12', 'C13'],
+contract(CM + 'update_cluster_member_data_statistics', props=['C12', 'C13', 'C17'],
          params=dict(cluster='obj:ClusterParameters', training_data='arr2[real]', use_biased_covariance='bool'),
          returns='obj:ClusterParameters',
          requires=["not isnone(cluster._member_points)", "len(cluster._member_points) > 0",
@@ -37,7 +37,7 @@ def _each(lo, hi, new, old):
     return ["forall(%s, %s, lambda k: %s)" % (lo, hi, p.format(new=new, old=old)) for p in _STATS_PARTS]
 
 
-contract(CM + 'update_all_cluster_statistics', props=['C12', 'C13', 'C09'],
+contract(CM + 'update_all_cluster_statistics', props=['C12', 'C13', 'C09', 'C17'],
          params=dict(model='obj:ModelState', training_data='arr2[real]'), returns='obj:ModelState',
          requires=["wf(model)", "len(model._point_labels) == training_data.shape[0]",
                    ("typestate:fresh-labelling-or-repopulated", "model._phase == 0 or model._phase == 1 or model._phase == 4"),
